@@ -26,6 +26,7 @@ type scheduler struct {
 	maxPreempt int // preemptions allowed at yield points (0: switch only when blocked)
 	preempts   int
 	eagerSpawn bool // run a new goroutine immediately until it blocks
+	exploreOrder bool
 	dead       bool
 	abort      interface{} // panic value to propagate to the main thread
 	wg         sync.WaitGroup
@@ -150,10 +151,7 @@ func (s *scheduler) exitThread(t *thread) {
 		main.wake <- struct{}{}
 		return
 	}
-	k := 0
-	if len(cands) > 1 {
-		k = s.i.ctx.choose(len(cands), "sched-exit")
-	}
+	k := s.pick(len(cands), "sched-exit")
 	nt := cands[k]
 	nt.waiting = nil
 	s.cur = nt
@@ -172,6 +170,20 @@ func (s *scheduler) deadlockAbort(where string) engineAbort {
 		st = psViolation
 	}
 	return engineAbort{st, "deadlock: all goroutines blocked " + where + desc}
+}
+
+// pick selects among n runnable candidates. The order in which *other* goroutines run
+// when the current one blocks or exits is explored only when the harness asked for schedule
+// exploration (SchedMode > 0 or ExploreOrder); otherwise the lowest-numbered goroutine runs
+// (a fixed fair schedule; the unexplored orders are outside the bound, see DESIGN.md §2.5).
+func (s *scheduler) pick(n int, tag string) int {
+	if n <= 1 {
+		return 0
+	}
+	if s.maxPreempt > 0 || s.exploreOrder {
+		return s.i.ctx.choose(n, tag)
+	}
+	return 0
 }
 
 // yield is a potential preemption point.
@@ -206,10 +218,7 @@ func (s *scheduler) block(cond func() bool, why string) {
 			me.waiting = nil
 			panic(s.deadlockAbort("in " + me.name + " (" + why + ")"))
 		}
-		k := 0
-		if len(oth) > 1 {
-			k = s.i.ctx.choose(len(oth), "sched-block:"+why)
-		}
+		k := s.pick(len(oth), "sched-block:"+why)
 		s.switchTo(oth[k])
 		me.waiting = nil
 	}
@@ -223,10 +232,7 @@ func (s *scheduler) drain() {
 		if len(oth) == 0 {
 			return
 		}
-		k := 0
-		if len(oth) > 1 {
-			k = s.i.ctx.choose(len(oth), "drain")
-		}
+		k := s.pick(len(oth), "drain")
 		// run it; it returns control when it blocks or exits (exitThread picks a
 		// runnable thread, possibly us)
 		me := s.cur
